@@ -56,6 +56,23 @@ def impl_vector_field(case):
                     c, ops, nts = M.build_pyrates(mdl, style=case.get("style"))
                 for path, val in mdl.get("post_values", {}).items():       # update_var after construction (C07)
                     c.update_var(node_vars={path: float(F(val))})
+                extra_kw = {}
+                for h in case.get("history", []):                           # C07/C14 histories of public API calls
+                    if h[0] == "update_var":
+                        c.update_var(node_vars={k: (np.array([float(F(x)) for x in v]) if isinstance(v, list) else float(F(v))) for k, v in h[1].items()})
+                    elif h[0] == "update_edge":
+                        c.update_var(edge_vars=[(h[1], h[2], {k: float(F(v)) for k, v in h[3].items()})])
+                    elif h[0] == "node_values":
+                        extra_kw["node_values"] = {k: (np.array([float(F(x)) for x in v]) if isinstance(v, list) else float(F(v))) for k, v in h[1].items()}
+                    elif h[0] == "derive_edges":
+                        # derived circuit: update_template(edges=...) returns a new template; continue with h[2] in ("derived", "base")
+                        d = c.update_template(edges=[(e["src"], e["tgt"], None, {"weight": float(F(e["w"]))}) for e in h[1]])
+                        if h[3]:
+                            (d if h[3][0] == "derived" else c).update_var(edge_vars=[(h[3][1], h[3][2], {"weight": float(F(h[3][3]))})])
+                        c = d if h[2] == "derived" else c
+                    elif h[0] == "compile_discard":
+                        # compile once (not in place) and throw the result away: must not influence later results
+                        c.get_run_func("tmp_vf", step_size=1e-3, vectorize=bool(h[1]), float_precision="float64", verbose=False, in_place=False, clear=True, **extra_kw)
                 if via == "roundtrip":
                     from pyrates import CircuitTemplate
                     from pyrates.frontend.template import clear_cache
@@ -64,7 +81,7 @@ def impl_vector_field(case):
                     clear_cache()
                     c = CircuitTemplate.from_yaml(os.path.join(os.getcwd(), "ymod", "dump", mdl["circuit"]["name"]))
                 func, args, names, smap = c.get_run_func("vf", step_size=1e-3, vectorize=False, float_precision="float64", verbose=False,
-                                                         in_place=case.get("in_place", True), clear=False, backend=case.get("backend", "default"))
+                                                         in_place=case.get("in_place", True), clear=False, backend=case.get("backend", "default"), **extra_kw)
             except Exception as e:
                 return {"error": type(e).__name__, "msg": str(e)[:300], "stage": "compile"}
             try:
